@@ -535,3 +535,103 @@ class C16(Check):
 
 
 CHECKS['C16'] = C16()
+
+
+# ---------------------------------------------------------------- C19
+
+def gen_emit(ft, node: int) -> list:
+    ops = []
+    n = ft.weighted([2, 3, 3, 2, 1, 1])
+    for i in range(n):
+        tok = f'tok{node}x{i}'
+        k = ft.weighted([4, 3, 2, 2, 2, 1])
+        if k == 0:
+            ops.append(['log', ft.pick(['info', 'warning', 'error']), tok])
+        elif k == 1:
+            ops.append(['print', tok])
+        elif k == 2:
+            ops.append(['err', tok + '\n'])
+        elif k == 3:
+            ops.append(['flush_out'])
+        elif k == 4:
+            ops.append(['flush_err'])
+        else:
+            ops.append(['out', 'part-' + tok])      # a partial line, never terminated
+    return ops
+
+
+def check_C19(sc, out, facts) -> list:
+    vs = []
+    left = facts.left_idx if facts.left_idx is not None else len(out.events)
+    delivered = [e[2] for e in out.events[:left] if e[0] == 'log']
+    late = [e[2] for e in out.events[left:] if e[0] == 'log']
+    last_end = None
+    for n, lst in facts.ends.items():
+        if last_end is None or lst[0][0] > last_end[0]:
+            last_end = (lst[0][0], n)
+    for idx, e in enumerate(out.events):
+        if e[0] != 'emit':
+            continue
+        node, kind, payload = e[1], e[2], e[3]
+        if kind in ('flush_out', 'flush_err') or payload is None:
+            continue
+        tok = payload.strip()
+        if kind == 'out':
+            tok = tok[len('part-'):]
+        count = sum(m.count(tok) for m in delivered)
+        required = kind in ('log', 'print', 'err')
+        if count > 1:
+            vs.append(O.V('C19', 'duplicated', f'{kind} message {tok} of node {node} was delivered {count} times', kind=kind))
+        elif count == 0 and required:
+            in_late = any(tok in m for m in late)
+            vs.append(O.V('C19', 'lost', f'{kind} message {tok} of node {node} was not delivered before run_tasks returned'
+                          + (' (it arrived later)' if in_late else '') +
+                          f'; node finished {"last" if last_end and last_end[1] == node else "earlier"}',
+                          kind=('logger' if kind == 'log' else 'stream'), last_finisher=bool(last_end and last_end[1] == node)))
+    return vs[:6]
+
+
+class C19(Check):
+    id = 'C19'
+    quick_runs = 1200
+    expected_probes = ('emitted-log', 'emitted-stream', 'flush-twice', 'last-finisher-emits')
+
+    def gen(self, ch, tier):
+        sc = gen_scenario(ch, backends=[('fork', 1), ('spawn', 1)], cache='sometimes', max_nodes=6)
+        ft = ch.stream('fault')
+        sc['emit'] = {}
+        for n in sc['nodes']:
+            ops = gen_emit(ft, n['id'])
+            if ops:
+                sc['emit'][str(n['id'])] = ops
+        return sc
+
+    def oracle(self, sc, out, facts):
+        vs = check_C19(sc, out, facts)
+        if out.kind != 'return':
+            what = out.exc['type'] if out.exc else out.abort
+            vs.append(O.V('C19', 'no-return', f'run_tasks did not return: {what} {(out.exc or {}).get("msg", out.abort_detail)[:200]}', exc=what))
+        return vs
+
+    def record(self, sc, out, vs, ch, extra=None):
+        r = super().record(sc, out, vs, ch, extra)
+        kinds = [e[2] for e in out.events if e[0] == 'emit']
+        if 'log' in kinds:
+            r['probes']['emitted-log'] = 1
+        if 'print' in kinds or 'err' in kinds:
+            r['probes']['emitted-stream'] = 1
+        for node in {e[1] for e in out.events if e[0] == 'emit'}:
+            ks = [e[2] for e in out.events if e[0] == 'emit' and e[1] == node]
+            if ks.count('flush_out') >= 2 or ks.count('flush_err') >= 2:
+                r['probes']['flush-twice'] = 1
+        ends = [(e, i) for i, e in enumerate(out.events) if e[0] == 'end']
+        if ends:
+            last_node = ends[-1][0][1]
+            if any(e[0] == 'emit' and e[1] == last_node for e in out.events):
+                r['probes']['last-finisher-emits'] = 1
+        r['sample']['emit'] = sc.get('emit')
+        r['nontrivial'] = bool(r['nontrivial'] or kinds)
+        return r
+
+
+CHECKS['C19'] = C19()
